@@ -36,8 +36,99 @@ def fmt(f: Form) -> str:
     return ' + '.join(parts) if parts else '0'
 
 
+_MODEL: Optional[Model] = None          # set by run(): lets linform follow arithmetic helpers
+_PARAM_KIND: dict[str, str] = {}        # while a helper is summarised: parameter -> atom
+
+
+def _xml_test(t: ast.AST) -> Optional[bool]:
+    """True for `'xml' in <map>`, False for `'xml' not in <map>`."""
+    if isinstance(t, ast.Compare) and len(t.ops) == 1 and isinstance(t.left, ast.Constant) \
+            and t.left.value == 'xml' and isinstance(t.ops[0], (ast.In, ast.NotIn)) \
+            and atom_of_len(t.comparators[0]) == 'N':
+        return isinstance(t.ops[0], ast.In)
+    return None
+
+
+def _select(test: ast.AST, then: Form, other: Form) -> Form:
+    """Form of `then if test else other`; the arms may differ only by a constant."""
+    diff = add(then, other, -1)
+    if set(diff) - {'1'}:
+        raise AnalysisError(f'position arithmetic: the arms of `{stmt_text(test)[:40]}` differ by '
+                            f'more than a constant')
+    d = diff.get('1', 0)
+    if not d:
+        return then
+    x = _xml_test(test)
+    if x is True:        # then when 'xml' in map (X = 0): other + d * (1 - X)
+        return add(add(other, {'1': d}), {'X': -d})
+    if x is False:
+        return add(other, {'X': d})
+    return add(other, {f'[{stmt_text(test)}]': d})
+
+
+def helper_form(h: FuncInfo, call: ast.Call) -> Form:
+    """
+    Summary of a module-level arithmetic helper (straight-line code, if statements whose arms
+    change the locals by constants, one return per path) as a linear form. A condition that is
+    not the 'xml' membership test becomes an indicator atom `[test]`: the helper then counts a
+    quantity that differs between two maps of the same size, which no reader does.
+    """
+    global _PARAM_KIND
+    params = h.params()
+    kinds: dict[str, str] = {}
+    for i, a in enumerate(call.args):
+        k = atom_of_len(a)
+        if k and i < len(params):
+            kinds[params[i]] = k
+    saved = _PARAM_KIND
+    _PARAM_KIND = kinds
+    try:
+        def block(body: list[ast.stmt], env: dict[str, Form]) -> Optional[Form]:
+            for st in body:
+                if isinstance(st, ast.Expr) and isinstance(st.value, ast.Constant):
+                    continue
+                if isinstance(st, ast.Return) and st.value is not None:
+                    return linform(st.value, env)
+                if isinstance(st, (ast.Assign, ast.AnnAssign)):
+                    tg = st.targets[0] if isinstance(st, ast.Assign) else st.target
+                    if isinstance(tg, ast.Name) and st.value is not None:
+                        env[tg.id] = linform(st.value, env)
+                        continue
+                if isinstance(st, ast.AugAssign) and isinstance(st.target, ast.Name) \
+                        and isinstance(st.op, (ast.Add, ast.Sub)) and st.target.id in env:
+                    env[st.target.id] = add(env[st.target.id], linform(st.value, env),
+                                            1 if isinstance(st.op, ast.Add) else -1)
+                    continue
+                if isinstance(st, ast.If):
+                    e1, e2 = dict(env), dict(env)
+                    r1, r2 = block(st.body, e1), block(st.orelse, e2)
+                    if r1 is not None and r2 is not None:
+                        return _select(st.test, r1, r2)
+                    if r1 is not None or r2 is not None:
+                        rest = body[body.index(st) + 1:]
+                        cont = block(rest, e2 if r1 is not None else e1)
+                        if cont is None:
+                            raise AnalysisError(f'{h.key}: a path without return')
+                        return _select(st.test, r1, cont) if r1 is not None \
+                            else _select(st.test, cont, r2)      # type: ignore[arg-type]
+                    for nm in set(e1) | set(e2):
+                        if nm in e1 and nm in e2:
+                            env[nm] = _select(st.test, e1[nm], e2[nm])
+                    continue
+                raise AnalysisError(f'{h.key}: statement `{stmt_text(st)[:40]}` not summarised')
+            return None
+        out = block(h.node.body, {})
+        if out is None:
+            raise AnalysisError(f'{h.key}: no return value')
+        return out
+    finally:
+        _PARAM_KIND = saved
+
+
 def atom_of_len(arg: ast.AST) -> Optional[str]:
     t = stmt_text(arg)
+    if t in _PARAM_KIND:
+        return _PARAM_KIND[t]
     base = t.split('(')[0]
     if base.endswith('nsmap') or base.endswith('namespaces'):
         return 'N'
@@ -72,6 +163,14 @@ def linform(e: ast.AST, env: dict[str, Form]) -> Form:
             return {'1': 1, 'X': -1}
     if isinstance(e, ast.Attribute) and dotted(e) == 'self.position':
         return {'P': 1}
+    if isinstance(e, ast.IfExp):
+        return _select(e.test, linform(e.body, env), linform(e.orelse, env))
+    if isinstance(e, ast.Call) and isinstance(e.func, ast.Name) and _MODEL is not None \
+            and e.args and not e.keywords:
+        hs = [h for h in _MODEL.all_functions() if h.cls is None and h.parent is None
+              and h.name == e.func.id]
+        if len(hs) == 1:
+            return helper_form(hs[0], e)
     raise AnalysisError(f'position arithmetic: unrecognised term `{stmt_text(e)[:50]}`')
 
 
@@ -111,8 +210,10 @@ def map_provenance(f: FuncInfo, cfg: CFG, cons: Node, incs: list) -> list:
         if not ds or any(in_loop(d) for d in ds) or depth > 3:
             return False
         for d in ds:
+            callees = {id(c.func) for c in ast.walk(d.value)     # type: ignore[attr-defined]
+                       if isinstance(c, ast.Call)}
             for x in ast.walk(d.value):         # type: ignore[attr-defined]
-                if isinstance(x, ast.Name) and x.id not in ('len', 'int', 'hasattr') \
+                if isinstance(x, ast.Name) and id(x) not in callees \
                         and x.id != name and not tree_level(x.id, depth + 1):
                     return False
                 if isinstance(x, ast.Attribute) and x.attr == 'nsmap':
@@ -684,6 +785,8 @@ def r02_4(ctx, counts) -> RuleResult:
 
 
 def run(ctx) -> dict:
+    global _MODEL
+    _MODEL = ctx.model
     counts: dict[str, int] = {}
     results = [r02_1(ctx, counts), r02_2(ctx, counts), r02_3(ctx, counts), r02_4(ctx, counts)]
     return {
